@@ -217,7 +217,40 @@ fn setup() -> i32 {
         bad += 1;
     }
     drop(tree);
+    // 4. the futex seam: a lock that a parked worker holds is a scheduled wait, not a stall,
+    //    and the whole run is a function of the seed
+    let locked = |seed: u64| {
+        let sched = sched::Sched::new(3, seed, sched::Strategy::Random, 200);
+        let m = std::sync::Mutex::new(Vec::new());
+        std::thread::scope(|sc| {
+            for wi in 0..3usize {
+                let (sched, m) = (&sched, &m);
+                sc.spawn(move || {
+                    sched.start(wi);
+                    for k in 0..20 {
+                        let mut g = m.lock().unwrap();
+                        sched.yield_point(wi, "holding the lock");
+                        g.push((wi, k));
+                        drop(g);
+                        sched.yield_point(wi, "lock released");
+                    }
+                    sched.finish(wi);
+                });
+            }
+        });
+        (m.into_inner().unwrap(), sched.summary().0, sched.futex_stats(), sched.stalls())
+    };
+    let (l1, l2, l3) = (locked(5), locked(5), locked(6));
+    if l1 != l2 || l1.0.len() != 60 || (l1.2).0 == 0 || l1.3 != 0 || l1.0 == l3.0 {
+        println!(
+            "HARNESS-ERROR futex seam: same seed equal={} pushes={} simulated waits={} stalls={} other seed differs={}",
+            l1 == l2, l1.0.len(), (l1.2).0, l1.3, l1.0 != l3.0
+        );
+        bad += 1;
+    }
+    let futex_waits = (l1.2).0;
     if bad == 0 {
+        println!("setup: futex seam verified ({} simulated waits, {} wake-ups, 0 stalls)", futex_waits, (l1.2).1);
         println!("setup: seams verified ({} query shapes, {} hash orders, 5 layout policies, {} id collisions among {} nodes under split-4G)", gen::SHAPES.len(), distinct.len(), c, n);
         0
     } else {
